@@ -74,6 +74,13 @@ func stableOrderIn(p *Prog, l *Ledger, rule, fname string, isList func(v ssa.Val
 	c := sorts[0]
 	name := c.Call.StaticCallee().String()
 	pos := p.Pos(c.Pos())
+	if name == "sort.Slice" {
+		// an unstable sort of (cue, position) pairs under a strict total order has one possible outcome
+		if handled, ok, why, _ := decoratedStableSort(p, fn, c, isList); handled && ok {
+			l.Prove(rule, fname, key, pos, why)
+			return
+		}
+	}
 	if name != "sort.SliceStable" && name != "sort.Stable" && name != "slices.SortStableFunc" {
 		l.Fail(rule, fname, key, pos, fname+" sorts with "+name+", which is not a stable sort: cues with equal starts may change their relative order")
 		return
@@ -172,6 +179,16 @@ func stableOrderIn(p *Prog, l *Ledger, rule, fname string, isList func(v ssa.Val
 			rets = append(rets, r)
 		}
 	}
+	if len(rets) > 1 {
+		// returns of false reached only when an index lies outside the list: the sort never passes such an index
+		var live []*ssa.Return
+		for _, r := range rets {
+			if !indexGuardReturn(less, r, off, isItems) {
+				live = append(live, r)
+			}
+		}
+		rets = live
+	}
 	if len(rets) != 1 {
 		l.Undecide(rule, fname, key, pos, "comparator has more than one return")
 		return
@@ -229,14 +246,50 @@ func ruleMergeShape(p *Prog, l *Ledger, tier string) {
 	}
 	a := NewNilAnalysis(p)
 	recv, arg := fn.Params[0], fn.Params[1]
-	rootedAt := func(v ssa.Value, par *ssa.Parameter) bool {
+	var rootedAt func(v ssa.Value, par *ssa.Parameter) bool
+	// a value inside a helper Merge calls from one place: a parameter stands for what that call passes
+	actualOf := func(v ssa.Value) ssa.Value {
+		par, ok := v.(*ssa.Parameter)
+		if !ok || par.Parent() == fn {
+			return v
+		}
+		h := par.Parent()
+		var site *ssa.Call
+		for _, b := range fn.Blocks {
+			for _, ins := range b.Instrs {
+				if c, ok := ins.(*ssa.Call); ok && c.Call.StaticCallee() == h {
+					if site != nil {
+						return v
+					}
+					site = c
+				}
+			}
+		}
+		if site == nil {
+			return v
+		}
+		for k, q := range h.Params {
+			if q == par && k < len(site.Call.Args) {
+				return site.Call.Args[k]
+			}
+		}
+		return v
+	}
+	rootedAt = func(v ssa.Value, par *ssa.Parameter) bool {
+		v = actualOf(v)
 		_, f, base := loadedField(v)
-		return f == "Items" && base == ssa.Value(par)
+		if f != "Items" || base == nil {
+			return false
+		}
+		return actualOf(base) == ssa.Value(par)
 	}
 	// (1) the append
 	nApp := 0
 	var appendStore *ssa.Store
-	for _, b := range fn.Blocks {
+	for _, b := range p.helperBlocks(fn) {
+		if b.Parent() != fn && FnName(b.Parent()) == "Subtitles.Order" {
+			continue
+		}
 		for _, ins := range b.Instrs {
 			st, ok := ins.(*ssa.Store)
 			if !ok {
@@ -244,6 +297,9 @@ func ruleMergeShape(p *Prog, l *Ledger, tier string) {
 			}
 			if _, f := fieldOfAddr(st.Addr); f != "Items" {
 				continue
+			}
+			if fa, ok := st.Addr.(*ssa.FieldAddr); ok && actualOf(fa.X) != ssa.Value(recv) {
+				continue // the Items of another object
 			}
 			nApp++
 			key := l.Key(rule, "Subtitles.Merge", "items-store", "")
@@ -270,12 +326,22 @@ func ruleMergeShape(p *Prog, l *Ledger, tier string) {
 	// (2) Order() after the append
 	ordered := false
 	var skipped *ssa.Call
-	for _, b := range fn.Blocks {
+	for _, b := range p.helperBlocks(fn) {
+		if b.Parent() != fn && FnName(b.Parent()) == "Subtitles.Order" {
+			continue
+		}
 		for _, ins := range b.Instrs {
 			if c, ok := ins.(*ssa.Call); ok {
-				if sc := c.Call.StaticCallee(); sc != nil && FnName(sc) == "Subtitles.Order" && len(c.Call.Args) > 0 && c.Call.Args[0] == ssa.Value(recv) {
-					if appendStore != nil && instrDominates(appendStore, c) {
-						if returnsWithout(appendStore.Block(), c.Block()) {
+				if sc := c.Call.StaticCallee(); sc != nil && FnName(sc) == "Subtitles.Order" && len(c.Call.Args) > 0 && actualOf(c.Call.Args[0]) == ssa.Value(recv) {
+					appendSite := ssa.Instruction(appendStore)
+					var orderSite ssa.Instruction = c
+					if appendStore != nil && appendStore.Parent() != c.Parent() {
+						// seen from Merge: the call of the helper that appends, the call of the helper that orders
+						appendSite = p.siteIn(fn, appendStore)
+						orderSite = p.siteIn(fn, c)
+					}
+					if appendStore != nil && appendSite != nil && orderSite != nil && instrDominates(appendSite, orderSite) {
+						if returnsWithout(appendSite.Block(), orderSite.Block()) {
 							skipped = c
 						} else {
 							ordered = true
@@ -781,4 +847,56 @@ func storedIntoField(call *ssa.Call, base ssa.Value, f string) bool {
 		}
 	}
 	return false
+}
+
+// indexGuardReturn: r returns the constant false and is reached only from the true edge of tests "index < 0" or
+// "index >= len(list)" on the index parameters of the comparator (a defensive guard the contract of the sort
+// functions makes unreachable: they pass 0 <= i, j < Len()).
+func indexGuardReturn(less *ssa.Function, r *ssa.Return, off int, isItems func(ssa.Value) bool) bool {
+	if len(r.Results) != 1 {
+		return false
+	}
+	c, ok := r.Results[0].(*ssa.Const)
+	if !ok || c.Value == nil || c.Value.String() != "false" {
+		return false
+	}
+	b := r.Block()
+	if len(b.Instrs) != 1 || len(b.Preds) == 0 {
+		return false
+	}
+	isIdx := func(v ssa.Value) bool {
+		for k, par := range less.Params {
+			if k >= off && v == ssa.Value(par) {
+				return true
+			}
+		}
+		return false
+	}
+	isLen := func(v ssa.Value) bool {
+		call, ok := v.(*ssa.Call)
+		if !ok {
+			return false
+		}
+		bi, ok := call.Call.Value.(*ssa.Builtin)
+		return ok && bi.Name() == "len" && isItems(call.Call.Args[0])
+	}
+	for _, pb := range b.Preds {
+		iff, ok := pb.Instrs[len(pb.Instrs)-1].(*ssa.If)
+		if !ok || pb.Succs[0] != b || pb.Succs[1] == b {
+			return false
+		}
+		bo, ok := iff.Cond.(*ssa.BinOp)
+		if !ok {
+			return false
+		}
+		switch {
+		case bo.Op == token.LSS && isIdx(bo.X) && isZeroConst(bo.Y):
+		case bo.Op == token.GTR && isZeroConst(bo.X) && isIdx(bo.Y):
+		case bo.Op == token.GEQ && isIdx(bo.X) && isLen(bo.Y):
+		case bo.Op == token.LEQ && isLen(bo.X) && isIdx(bo.Y):
+		default:
+			return false
+		}
+	}
+	return true
 }
